@@ -158,3 +158,42 @@ Theorem C09_stop_on_disappear_partial : forall spoll s v now orc s' id i,
   lookup id (o_running s') = Some i -> is_set (i_sp i) (Some RDeleted) = true.
 Proof. exact (fun spoll s => stop_on_deletion_mark spoll s true). Qed.
 Print Assumptions C09_stop_on_disappear_partial.
+
+(* "cancellation after the backoff, abandonment after the timeout ... when the object disappears": FALSE of the faithful model
+   (finding F702).  Forced removal while the daemons are being stopped: the DELETED event (here WITH deletionTimestamp) is the
+   last cycle; the flag is set, stop_daemons asks for a next check (o_delays = [500]) which never comes
+   (process_resource_event applies no delays on DELETED), and the memory is forgotten: the instance is `stranded`. *)
+Theorem C09_stop_on_forced_removal_refuted :
+  exists s i, run 1000 init forced_removal_trace = Some s /\ stranded s 0 0 i /\ In (0%nat, 0%nat) (o_live s) /\
+    is_set (i_sp i) (Some RDeleted) = true /\ eff_backoff (i_h i) = Some 1000 /\ eff_timeout (i_h i) = Some 2000 /\
+    o_delays s = [500] /\
+    i_canc i = false /\ is_set (i_sp i) (Some RCancelled) = false /\ is_set (i_sp i) (Some RAbandoned) = false.
+Proof. exact stop_on_forced_removal_refuted. Qed.
+Print Assumptions C09_stop_on_forced_removal_refuted.
+
+(* ... and for EVERY continuation (no event of that uid can come; pause, resume, exit and every killer sweep included) a
+   stranded instance stays exactly as it was: never cancelled, never abandoned, not reached by the killer.  The orphans of F7
+   (C09_orphan_never_stopped) are the stranded instances whose flag was not even set. *)
+Theorem C09_stranded_never_touched : forall spoll tr s s' id ser i, stranded s id ser i -> run spoll s tr = Some s' ->
+  forall i', lookup id (o_running s') = Some i' -> i' = i.
+Proof. exact stranded_never_touched. Qed.
+Print Assumptions C09_stranded_never_touched.
+
+Theorem C09_orphan_is_stranded : forall s id ser, orphan s id ser -> exists i, stranded s id ser i /\ sp_reason (i_sp i) = None.
+Proof. exact orphan_is_stranded. Qed.
+Print Assumptions C09_orphan_is_stranded.
+
+(* ... TRUE whenever the cycles continue (the object is still there to be touched after the returned delay): a flagged,
+   still running daemon IS cancelled by the cycle that falls into the cancellation stage and IS given up by the one that falls
+   into the abandonment stage (with C09_staged_delays / C09_staged_progress: the returned delays land exactly there) *)
+Theorem C09_stop_on_forced_removal_partial : forall h spoll now why sp ex,
+  is_set sp (Some why) = true ->
+  (stage_of (eff_backoff h) (eff_timeout h) (age_of now sp) = SCancel -> is_set sp (Some RCancelled) = false ->
+     r_cancel (stage h spoll now why sp false ex) = true /\ is_set (r_sp (stage h spoll now why sp false ex)) (Some RCancelled) = true) /\
+  (stage_of (eff_backoff h) (eff_timeout h) (age_of now sp) = SAbandon ->
+     is_set (r_sp (stage h spoll now why sp false ex)) (Some RAbandoned) = true /\ r_delays (stage h spoll now why sp false ex) = []).
+Proof.
+  intros h spoll now why sp ex Hw.
+  exact (conj (stage_cancels_when_due h spoll now why sp ex Hw) (stage_abandons_when_due h spoll now why sp ex Hw)).
+Qed.
+Print Assumptions C09_stop_on_forced_removal_partial.
